@@ -162,23 +162,23 @@ CHECKS['C13'] = {
     'verus_units': ['parser', 'tokenizer'],
     'clause_prefixes': ['c13'],
     'technique': 'contract-based deductive verification (Verus): BinaryOperators::new / get, Parser::get_token_precedence, Parser::parse_unary_operator and tokenize extracted from /repo; the precedence numbers are read from the source on every run, the functions are proved to use exactly them, and a lemma proves that the numbers realise the standard SQL chain',
-    'claim': 'Proof that the precedence table the parser consults (symbolic operators, IS/IN/AND/OR keywords, ::, [ ]) and the operand levels of prefix NOT and unary minus realise OR < AND < NOT < comparisons = IS = IN < + - < * / < unary minus <= :: = [ ] <= qualified names, and that get_token_precedence / parse_unary_operator use exactly these numbers. The body of parse_binary_operator_rhs is verified too, with the textbook invariant of precedence climbing as an in-body obligation: the right operand of an operator of level p is extended only through a recursive call with minimum level p + 1 (tighter operators only, equal levels associate to the left). The tokenizer (unit tokenizer) is proved to fuse two operator characters only when they are adjacent in the text and only for the pairs listed in the source, which a lemma pins to <= >= != -- (and =>): an operator followed by a minus sign stays two tokens. NOT covered: a full proof that the resulting tree is the reference grouping, and one-element IN lists - repaired and demonstrated by replays only.',
+    'claim': 'Proof that the precedence table the parser consults (symbolic operators, IS/IN/AND/OR keywords, ::, [ ]) and the operand levels of prefix NOT and unary minus realise OR < AND < NOT < comparisons = IS = IN < + - < * / < unary minus <= :: = [ ] <= qualified names, and that get_token_precedence / parse_unary_operator use exactly these numbers. The body of parse_binary_operator_rhs is verified too, with the textbook invariant of precedence climbing as an in-body obligation: the right operand of an operator of level p is extended only through a recursive call with minimum level p + 1 (tighter operators only, equal levels associate to the left). The tokenizer (unit tokenizer) is proved to fuse two operator characters only when they are adjacent in the text and only for the pairs listed in the source, which a lemma pins to <= >= != -- (and =>): an operator followed by a minus sign stays two tokens. Operands (parse_primary_expression, parse_identifier_expression, parse_list, parse_arguments): ( e ) not followed by a comma IS the expression e (parentheses are accepted wherever an operand is and add nothing), only ( e , ... ) is a tuple and it has at least two elements, a list always has at least one element, a bare name is a column. NOT covered: a full proof that the resulting tree is the reference grouping; the one-element IN list is handled inside parse_binary_operator_rhs (verified body, no separate clause) and demonstrated by a replay.',
     'note': 'Trusted: HashMap<Operator, BinaryOperator> as a finite map (VOpMap), derived Token equality, parse_binary_operator_rhs / parse_primary_expression as stand-ins that only record the minimum precedence they are called with. A renumbering of the levels that keeps the order verifies; a change of the order fails the lemma.',
     'level': 'proof',
     'explanation': 'Table-level proof (DESIGN C13): self-generated conditions - constants P_* are cut from the source text, the extracted functions must return them, lemma_precedence_chain relates them as the property demands.',
     'trusted': COMMON_TRUST + ['parse_primary_expression / parse_expression_internal are stand-ins; the recursive call of parse_binary_operator_rhs is a stand-in that records its minimum level'],
-    'unproved': ['reference-grouping correctness of the whole expression parser', 'parenthesised tuple / one-element IN handling', 'keyword table content (KEYWORDS) and IS NOT / NOT IN keyword fusion'],
+    'unproved': ['reference-grouping correctness of the whole expression parser', 'keyword table content (KEYWORDS) and IS NOT / NOT IN keyword fusion', 'parse_extract_expression / parse_case_expression'],
 }
 CHECKS['C14'] = {
     'verus_units': ['parser', 'tokenizer', 'converter'],
     'clause_prefixes': ['c14'],
     'technique': 'contract-based deductive verification (Verus) of tokenize (with its local TokenizerState), TokenLocation::extract_near and the parser\'s token cursor (Parser::new/next/current/current_location/create_error/expect_token/expect_and_consume_token, ParserError::new) extracted from /repo',
-    'claim': 'Proof for every text that tokenize cannot panic, that the line/column it keeps are the position of the consumed prefix, that every token and every tokenizer error is located inside the text (the position of some offset 0..=len) and that the token vector ends with Token::End; proof that TokenLocation::extract_near cannot panic for any location and text (every word range lies inside the line, no index underflow); proof (cursor kernel) that once the first next() succeeded the parser cursor stays inside the token vector, next() at the end is an error and not a step, current()/current_location() never index out of bounds and every error created carries the location of a real token. "Any text yields a statement or a located error" for the recursive-descent grammar functions and the tree converter is NOT decided.',
+    'claim': 'Proof for every text that tokenize cannot panic, that the line/column it keeps are the position of the consumed prefix, that every token and every tokenizer error is located inside the text (the position of some offset 0..=len) and that the token vector ends with Token::End; proof that TokenLocation::extract_near cannot panic for any location and text (every word range lies inside the line, no index underflow); proof that the operand-level functions (parse_primary_expression, parse_identifier_expression, parse_list, parse_arguments, consume_identifier / consume_string / consume_int, expect_and_consume_operator) keep the cursor on a token and fail with a located error instead of panicking; proof (cursor kernel) that once the first next() succeeded the parser cursor stays inside the token vector, next() at the end is an error and not a step, current()/current_location() never index out of bounds and every error created carries the location of a real token. "Any text yields a statement or a located error" for the recursive-descent grammar functions and the tree converter is NOT decided.',
     'note': 'Trusted: Peekable<Chars> as a cursor over the character sequence (VChars), Unicode class predicates uninterpreted (a line break is not alphanumeric), str::lines().nth / chars().collect / String::from_iter(&v[a..b]) / format! as stand-ins with the slice-range precondition, Vec length <= usize::MAX. Termination of the tokenizer loops is not proved. Unproved: all parse_* functions except parse_unary_operator, parser_tree_converter (transform_call_aggregate), TableDefinition::new; the panics found there (extract_near underflow, empty JSON path, string_agg arity) were repaired and are demonstrated by replays.',
     'level': 'proof',
     'explanation': 'Tokenizer: loop invariant at_offset(state, text, n) (rest of the iterator = text.skip(n), line = number of line breaks and column = characters after the last line break of text.take(n)); next_char and add carry it in universally quantified postconditions. Cursor safety is the invariant 0 <= index < tokens.len() established by next() and required by every accessor.',
     'trusted': COMMON_TRUST,
-    'unproved': ['Parser::parse_* (grammar)', 'parser_tree_converter', 'TableDefinition::new'],
+    'unproved': ['Parser::parse_select / parse_join / parse_create_table / parse_define_column / parse_type / parse_extract_expression / parse_case_expression (statement grammar)', 'parser_tree_converter except transform_join', 'TableDefinition::new'],
 }
 
 CHECKS['C12'] = {
